@@ -29,7 +29,7 @@ PANIC_FN = re.compile(r"(^|::)(panicking::|rt::begin_panic|option::unwrap_failed
 
 class Obl:
     """one potential panic origin"""
-    __slots__ = ("block", "cls", "ok", "rule", "desc", "line", "file", "lift", "what", "trust")
+    __slots__ = ("block", "cls", "ok", "rule", "desc", "line", "file", "lift", "what", "trust", "dirty")
 
     def __init__(self, block, cls, ok, rule, desc, line, file, what, lift=None, trust=None):
         self.block = block
@@ -42,6 +42,7 @@ class Obl:
         self.what = what
         self.lift = lift
         self.trust = trust
+        self.dirty = frozenset()
 
 
 class Result:
@@ -210,7 +211,7 @@ class Analyzer:
         v, t = self.eval_op_raw(st, op)
         if v[0] == "pending":
             v = v[1]
-        if v[0] in ("sum", "diff", "rem"):
+        if v[0] in ("sum", "diff", "rem", "quot"):
             v = v[1]
         if v[0] == "nw":
             v = self.reduce_nw(st, v, t)
@@ -219,7 +220,7 @@ class Analyzer:
     def reduce_nw(self, st, v, tix=None):
         x = ("n", v[1], v[2])
         if st.prove_le(("n", None, 0), x, 0):
-            return x
+            return ("n", v[1], v[2] + v[3])
         r = self.ty_range(tix) if tix is not None else None
         return ("iv", 0, r[1] if r else None)
 
@@ -227,7 +228,7 @@ class Analyzer:
         """constraints for `raw - ln <= c` where raw may be a signed value reinterpreted as unsigned"""
         if raw[0] == "nw":
             x = ("n", raw[1], raw[2])
-            return x, [(("n", None, 0), x, 0), (x, ln, c)]
+            return ("n", raw[1], raw[2] + raw[3]), [(("n", None, 0), x, 0), (("n", raw[1], raw[2] + raw[3]), ln, c)]
         if raw[0] in ("pending",):
             raw = raw[1]
         if raw[0] in ("sum", "diff", "rem"):
@@ -239,11 +240,67 @@ class Analyzer:
         un = [(a, b, c) for (a, b, c) in cons if not (a[0] in ("n", "iv") and b[0] in ("n", "iv") and st.prove_le(a, b, c))]
         return (not un), un
 
-    @staticmethod
-    def conj_lift(un):
-        if un and all(a[0] == "n" and b[0] == "n" and (a[1] is not None or b[1] is not None) for (a, b, c) in un):
-            return ("conj", un)
-        return None
+    def liftable_term(self, t, dirty):
+        """term rooted at a parameter whose value at this point is still its value at function entry"""
+        if t is None:
+            return True
+        root = t[1]
+        if not isinstance(root, int) or not (1 <= root <= self.b.argc):
+            return False
+        pl = term_place(t)
+        if not pl[1] and self.b.defs.get(root):
+            return False
+        from .interproc import _written_hits
+        return not any(_written_hits(w, pl) for w in dirty)
+
+    def conj_lift(self, un, st=None):
+        """lift form of the unproven constraints; a term that is not a clean parameter term is replaced, when the
+        state relates it to one, by that term (giving a sufficient, stronger constraint)"""
+        st = st or self.cur_state
+        dirty = self.cur_dirty
+        out = []
+        for (a, b, c) in un:
+            if a[0] != "n" or b[0] != "n":
+                return None
+            a2, b2, c2 = a, b, c
+            if not self.liftable_term(a[1], dirty):
+                # need P with  a - P <= d  :  then  P - b <= c - d  suffices
+                best = None
+                if st is not None:
+                    for (x, y), d in st.rel.items():
+                        if x == a[1] and self.liftable_term(y, dirty) and (best is None or d < best[1]):
+                            best = (y, d)
+                    if best is None:
+                        hi = st.iv.get(a[1], (None, None))[1]
+                        if hi is not None:
+                            best = (None, hi)
+                if best is None:
+                    return None
+                a2 = ("n", best[0], 0)
+                c2 = c2 - best[1] - a[2]
+            if not self.liftable_term(b[1], dirty):
+                # need P with  P - b <= d  :  then  a - P <= c - d  suffices
+                best = None
+                if st is not None:
+                    for (x, y), d in st.rel.items():
+                        if y == b[1] and self.liftable_term(x, dirty) and (best is None or d < best[1]):
+                            best = (x, d)
+                    if best is None:
+                        lo = st.iv.get(b[1], (None, None))[0]
+                        if lo is not None:
+                            best = (None, -lo)
+                if best is None:
+                    return None
+                b2 = ("n", best[0], 0)
+                c2 = c2 - best[1] + b[2]
+            if a2[1] is None and b2[1] is None:
+                if a2[2] - b2[2] <= c2:
+                    continue          # became trivially true
+                return None
+            out.append((a2, b2, c2))
+        if not out:
+            return None
+        return ("conj", out)
 
     def conj_assume(self, st, cons):
         for (a, b, c) in cons:
@@ -509,6 +566,8 @@ class Analyzer:
             if ib[0] is not None and ib[0] > 0 and ia[0] is not None and ia[0] >= 0:
                 hi = None if ia[1] is None else ia[1] // ib[0]
                 out = ("iv", 0 if ib[1] is None else ia[0] // ib[1], hi)
+                if a[0] == "n" and a[1] is not None:
+                    out = ("quot", out, a)
             elif ib[0] is not None and ib[0] > 0:
                 lo = None if ia[0] is None else -((-ia[0]) // ib[0]) if ia[0] < 0 else 0
                 hi = None if ia[1] is None else (ia[1] // ib[0] if ia[1] >= 0 else 0)
@@ -558,7 +617,7 @@ class Analyzer:
             out = ("iv", r[0], r[1])
         # wrap-aware clipping to the operand type's range
         extra = None
-        if out[0] in ("sum", "diff", "rem"):
+        if out[0] in ("sum", "diff", "rem", "quot"):
             extra = out
             out = out[1]
         i = st.val_iv(out) if out[0] in ("n", "iv") else FULL
@@ -567,6 +626,32 @@ class Analyzer:
         if extra is not None:
             return extra
         return out
+
+    def binop_nw(self, st, op, ra, rb, ta, tb):
+        """arithmetic / comparison that keeps the provenance of a signed value cast to unsigned"""
+        def clean(v):
+            if v[0] == "pending":
+                v = v[1]
+            if v[0] in ("sum", "diff", "rem"):
+                v = v[1]
+            return v
+        ra, rb = clean(ra), clean(rb)
+        if ra[0] != "nw" and rb[0] != "nw":
+            return None
+        base = op[:-1] if op.endswith("O") else op
+        if base in ("Add", "Sub") and ra[0] == "nw" and rb[0] == "n" and rb[1] is None:
+            d = rb[2] if base == "Add" else -rb[2]
+            if ra[3] + d >= 0:
+                return ("nw", ra[1], ra[2], ra[3] + d)
+            return None
+        if base == "Add" and rb[0] == "nw" and ra[0] == "n" and ra[1] is None and rb[3] + ra[2] >= 0:
+            return ("nw", rb[1], rb[2], rb[3] + ra[2])
+        if op in ("Lt", "Le", "Gt", "Ge", "Eq", "Ne"):
+            a = ra if ra[0] in ("n", "iv", "nw") else None
+            b = rb if rb[0] in ("n", "iv", "nw") else None
+            if a is not None and b is not None:
+                return ("b", ("cmpw", op, a, b))
+        return None
 
     def cast(self, st, v, from_tix, to_tix, ck):
         rt = self.ty_range(to_tix)
@@ -589,12 +674,42 @@ class Analyzer:
         # signed -> unsigned of a possibly negative value: equals the source when that is >= 0, huge otherwise
         if v[0] == "n" and v[1] is not None and rt[0] == 0 and (i[1] is None or rt[1] is None or i[1] <= rt[1]) \
                 and (i[0] is None or i[0] < 0):
-            return ("nw", v[1], v[2])
+            return ("nw", v[1], v[2], 0)
         return ("iv", rt[0], rt[1])
 
     # ------------------------------------------------------------------ conditions
+    def _unwrap_cmpw(self, st, c, truth):
+        """`cmpw`: comparison whose operands may be signed values reinterpreted as unsigned (huge when negative).
+        Returns (plain cmp cond to assume or None, extra non-negativity facts)"""
+        op, a, b = c[1], c[2], c[3]
+        if not truth:
+            op = {"Eq": "Ne", "Ne": "Eq", "Lt": "Ge", "Le": "Gt", "Gt": "Le", "Ge": "Lt"}[op]
+        extra = []
+
+        def small(v):
+            i = st.val_iv(v) if v[0] in ("n", "iv") else (None, None)
+            return i[1] is not None and i[1] < (1 << 62)
+
+        def red(v):
+            return self.reduce_nw(st, v) if v[0] == "nw" else v
+        # nw(x)+add  <(=)  b  with b small  ==>  x >= 0  and  x+add <(=) b
+        if a[0] == "nw" and op in ("Lt", "Le", "Eq") and b[0] != "nw" and small(b):
+            extra.append((("n", None, 0), ("n", a[1], a[2]), 0))
+            a = ("n", a[1], a[2] + a[3])
+        if b[0] == "nw" and op in ("Gt", "Ge", "Eq") and a[0] != "nw" and small(a):
+            extra.append((("n", None, 0), ("n", b[1], b[2]), 0))
+            b = ("n", b[1], b[2] + b[3])
+        a, b = red(a), red(b)
+        return ("cmp", op, a, b), extra
+
     def assume(self, st, c, truth):
         k = c[0]
+        if k == "cmpw":
+            plain, extra = self._unwrap_cmpw(st, c, truth)
+            for (x, y, d) in extra:
+                st.add_le(x, y, d)
+            self.assume(st, plain, True)
+            return
         if k == "cmp":
             op, a, b = c[1], c[2], c[3]
             if not truth:
@@ -685,6 +800,10 @@ class Analyzer:
     def cond_truth(self, st, c):
         """True / False / None (unknown)"""
         k = c[0]
+        if k == "cmpw":
+            a = self.reduce_nw(st, c[2]) if c[2][0] == "nw" else c[2]
+            b = self.reduce_nw(st, c[3]) if c[3][0] == "nw" else c[3]
+            return self.cond_truth(st, ("cmp", c[1], a, b))
         if k == "cmp":
             op, a, b = c[1], c[2], c[3]
             if op == "Lt":
@@ -787,6 +906,14 @@ class Analyzer:
                 if v[0] != "top":
                     st.sym[(cd[0], cd[1])] = v
                 return
+        if v[0] == "quot":
+            self.assign(st, pj, v[1])
+            c = self.canon(st, pj)
+            if c is not None and self.is_num(c[2]):
+                me = ("n", ("v", c[0], c[1]), 0)
+                st.set_iv(me[1], *st.val_iv(v[1]))
+                st.add_le(me, v[2], 0)
+            return
         if v[0] in ("sum", "diff", "rem"):
             self.assign(st, pj, v[1])
             c = self.canon(st, pj)
@@ -831,10 +958,21 @@ class Analyzer:
                 v = v[1]
             return v, t
         if k == "bin":
+            ra, ta = self.eval_op_raw(st, rv["a"])
+            rb, tb = self.eval_op_raw(st, rv["b"])
+            op = rv["op"]
+            nw = self.binop_nw(st, op, ra, rb, ta, tb)
+            if nw is not None:
+                if op in ("AddO", "SubO"):
+                    c = self.canon(st, dest)
+                    if c is not None:
+                        st.kill((c[0], c[1]), whole_local=not c[1])
+                        st.sym[(c[0], c[1] + ("0",))] = nw
+                    return None, None
+                return nw, self.place_type(dest)
             a, ta = self.eval_op(st, rv["a"])
             b, tb = self.eval_op(st, rv["b"])
             dt = self.place_type(dest)
-            op = rv["op"]
             if op.endswith("O") and op != "AddO" and op != "SubO" and op != "MulO":
                 pass
             if op in ("AddO", "SubO", "MulO"):
@@ -961,11 +1099,15 @@ class Analyzer:
     def analyze(self, body, entry=None, collect=True):
         self.b = body
         self.res = Result(body)
+        from . import absdom as _ad
+        _ad.MAX_PARAM = body.argc
+        self.cur_dirty = frozenset()
+        self.cur_state = None
         self.switch_conds = {}
         self.eb = None
         # reference-typed locals with several definitions (loop-carried slices, re-bound `&mut` cursors) are places
         # of their own: `(*l)` is not resolved through whatever they pointed to in one particular iteration
-        self.multidef = {l for l, ds in body.defs.items() if len(ds) > 1 or (l <= body.argc and ds)}
+        self.multidef = {l for l, ds in body.defs.items() if l != 0 and (len(ds) > 1 or (1 <= l <= body.argc and ds))}
         self.collect = False
         n = body.nblocks
         rpo = body.rpo
@@ -1064,6 +1206,8 @@ class Analyzer:
                 return []
         t = blk["term"]
         k = t["k"]
+        self.cur_dirty = st.dirty
+        self.cur_state = st
         if k == "goto":
             return [(t["target"], st)]
         if k == "return":
@@ -1166,7 +1310,9 @@ class Analyzer:
     def oblige(self, bi, cls, ok, rule, desc, t, what, lift=None, trust=None):
         if not self.collect:
             return
-        self.res.obls.append(Obl(bi, cls, ok, rule, desc, t.get("line"), t.get("file") or self.b.file, what, lift, trust))
+        o = Obl(bi, cls, ok, rule, desc, t.get("line"), t.get("file") or self.b.file, what, lift, trust)
+        o.dirty = self.cur_dirty
+        self.res.obls.append(o)
 
     def describe(self, t):
         """line-number free description of a call / assert for keys"""
